@@ -481,7 +481,7 @@ def seed_tables() -> dict:
     for w in sc.shared_state():
         if w not in writes:
             writes.append(w)
-    return {"poisson_order": _poisson_order(tree), "plumbing": plumbing(),
+    return {"poisson_order": _poisson_order(tree), "plumbing": plumbing() + _ctor_stores(tree),
             "temp_seed": temp_seed_shape(tree), "temp_seed_args": _temp_seed_args(tree), "writes": writes,
             "plans": sorted(plans.items()), "rows": rows, "reached": sorted(sc.reached)}
 
@@ -512,6 +512,20 @@ def _poisson_order(tree: ast.Module) -> list[str]:
     return toks
 
 
+def _ctor_stores(tree: ast.Module) -> list[tuple[str, bool]]:
+    """`BaseMaskFunc.__init__` keeps the configured sequences as they are given (no conversion that could change a
+    value, its type or the pairing of centre fractions and accelerations)"""
+    cls = next((c for c in tree.body if isinstance(c, ast.ClassDef) and c.name == "BaseMaskFunc"), None)
+    fn = next((f for f in (cls.body if cls else []) if isinstance(f, ast.FunctionDef) and f.name == "__init__"), None)
+    rows = []
+    for attr in ("center_fractions", "accelerations"):
+        stores = [st for st in ast.walk(fn) if isinstance(st, (ast.Assign, ast.AnnAssign, ast.AugAssign))
+                  and any(ast.unparse(t) == f"self.{attr}" for t in (st.targets if isinstance(st, ast.Assign) else [st.target]))] if fn else []
+        rows.append((f"BaseMaskFunc.__init__: self.{attr} = {attr} (once, unchanged)",
+                     len(stores) == 1 and isinstance(stores[0], ast.Assign) and ast.unparse(stores[0].value) == attr))
+    return rows
+
+
 def _b(x) -> str:
     return "true" if x else "false"
 
@@ -532,7 +546,7 @@ def _seed_extra():
                 "def seedParams : List (String × Bool × Bool × Bool) :=\n  ["
                 + ", ".join(f'("{g}", true, false, true)' for g in C05_GENERATORS) + "]\n"
                 'def poissonOrder : List String := ["raster", "crop", "disc"]\n'
-                "def callSitePlumbing : List (String × Bool) := [" + ", ".join(f"({_q(x)}, true)" for x in PLUMBING_EXPECTED) + "]\n")
+                "def callSitePlumbing : List (String × Bool) := [" + ", ".join(f"({_q(x)}, true)" for x in PLUMBING_EXPECTED + ["ctor a", "ctor b"]) + "]\n")
         return text, {"seed_pass_through": f"skipped: {e}"}
     L = ["/-- statement skeleton of `temp_seed` (`seed` only when `rng.seed` gets exactly the seed parameter) -/",
          "def tempSeed : List String := [" + ", ".join(_q(x) for x in t["temp_seed"]) + "]\n",
